@@ -46,8 +46,10 @@ package openflow13
 //@ decoder (*FlowMod).UnmarshalBinary(f, data) (err) [C07 C12]
 //@   requires len(f.Match.Fields) == 0 && len(f.Instructions) == 0
 //@   ensures err == nil ==> wfl(f)
+//@   ensures[C05] @elems: err == nil ==> elemsat(data, 48 + size(f.Match), f.Instructions, len(f.Instructions), "t")
 //@   loop 1:
-//@     invariant 56 <= n && int(f.Header.Length) <= len(data) && wfl(f.Match) && allwfl(f.Instructions)
+//@     invariant 56 <= n && int(f.Header.Length) <= len(data) && wfl(f.Match) && allwfl(f.Instructions) && n == 48 + size(f.Match) + sum(f.Instructions)
+//@     invariant[C05] elemsat(data, 48 + size(f.Match), f.Instructions, len(f.Instructions), "t")
 //@     decreases int(f.Header.Length) - n
 
 //@ decoder (*FlowRemoved).UnmarshalBinary(f, data) (err) [C07 C12]
@@ -57,14 +59,19 @@ package openflow13
 //@ decoder (*GroupMod).UnmarshalBinary(g, data) (err) [C07 C12]
 //@   requires len(g.Buckets) == 0
 //@   ensures err == nil ==> wfl(g)
+//@   ensures[C05] @elems: err == nil ==> elemsat(data, 16, g.Buckets, len(g.Buckets), "l0")
 //@   loop 1:
-//@     invariant 16 <= n && int(g.Header.Length) <= len(data) && allwfl(g.Buckets)
+//@     invariant 16 <= n && int(g.Header.Length) <= len(data) && allwfl(g.Buckets) && n == 16 + sum(g.Buckets)
+//@     invariant[C05] elemsat(data, 16, g.Buckets, len(g.Buckets), "l0")
 //@     decreases int(g.Header.Length) - n
 
 //@ elemdecoder (*Bucket).UnmarshalBinary(b, data) (err) [C07 C12]
 //@   requires len(b.Actions) == 0
+//@   ensures[C04 C05] @len: err == nil ==> int(be16(data, 0)) == size(b) && size(b) >= 16
+//@   ensures[C04 C05] @elems: err == nil ==> elemsat(data, 16, b.Actions, len(b.Actions), "t")
 //@   loop 1:
 //@     invariant 16 <= n && n <= int(b.Length) && int(b.Length) <= len(data) && b.Length%8 == 0 && allwfl(b.Actions) && n == 16 + sum(b.Actions)
+//@     invariant[C04 C05] elemsat(data, 16, b.Actions, len(b.Actions), "t")
 //@     decreases int(b.Length) - n
 
 //@ decoder (*InstrHeader).UnmarshalBinary(a, data) (err) [C07 C12]
@@ -76,20 +83,25 @@ package openflow13
 //@ elemdecoder (*InstrActions).UnmarshalBinary(instr, data) (err) [C07 C12]
 //@   requires len(instr.Actions) == 0
 //@   ensures err == nil ==> size(instr) <= 65535
+//@   ensures[C04 C05] @elems: err == nil ==> elemsat(data, 8, instr.Actions, len(instr.Actions), "t")
 //@   loop 1:
 //@     invariant 8 <= n && int(instr.Length) <= len(data) && (n <= int(instr.Length) || len(instr.Actions) == 0) && n <= len(data) && allwfl(instr.Actions) && n == 8 + sum(instr.Actions)
+//@     invariant[C04 C05] elemsat(data, 8, instr.Actions, len(instr.Actions), "t")
 //@     decreases int(instr.Length) - n
 
 //@ decoder (*Match).UnmarshalBinary(m, data) (err) [C07 C12]
 //@   requires len(m.Fields) == 0
 //@   ensures err == nil ==> wfl(m) && 8 <= size(m) && size(m) <= len(data) && size(m) <= 65535
+//@   ensures[C04 C05] @elems: err == nil ==> elemsat(data, 4, m.Fields, len(m.Fields), "h32:oxmhdr")
 //@   loop 1:
 //@     invariant 4 <= n && n <= len(data) && allwfl(m.Fields) && n == 4 + sum(m.Fields)
+//@     invariant[C04 C05] elemsat(data, 4, m.Fields, len(m.Fields), "h32:oxmhdr")
 //@     decreases len(data) - n
 
 //@ elemdecoder (*MatchField).UnmarshalBinary(m, data) (err) [C07 C12]
 //@   requires m.ExperimenterID == 0
 //@   ensures err == nil ==> size(m) <= 600
+//@   ensures[C04 C05] @hdr: err == nil ==> be32(data, 0) == oxmhdr(m) && size(m) >= 4
 
 //@ elemdecoder (*InPortField).UnmarshalBinary(m, data) (err) [C07 C12]
 
@@ -161,8 +173,10 @@ package openflow13
 //@ decoder (*FlowStats).UnmarshalBinary(s, data) (err) [C07 C12]
 //@   requires len(s.Match.Fields) == 0 && len(s.Instructions) == 0
 //@   ensures err == nil ==> wfl(s) && 1 <= size(s) && size(s) <= len(data) && size(s) <= 200000
+//@   ensures[C04 C05] @elems: err == nil ==> elemsat(data, 48 + size(s.Match), s.Instructions, len(s.Instructions), "t")
 //@   loop 1:
 //@     invariant 56 <= n && int(s.Length) <= len(data) && n <= len(data) && wfl(s.Match) && allwfl(s.Instructions) && n == 48 + size(s.Match) + sum(s.Instructions) && n <= 140000
+//@     invariant[C04 C05] elemsat(data, 48 + size(s.Match), s.Instructions, len(s.Instructions), "t")
 //@     decreases int(s.Length) - n
 
 //@ decoder (*AggregateStatsRequest).UnmarshalBinary(s, data) (err) [C07 C12]
@@ -189,8 +203,10 @@ package openflow13
 
 //@ elemdecoder (*NXActionConnTrack).UnmarshalBinary(a, data) (err) [C07 C12]
 //@   requires len(a.actions) == 0
+//@   ensures[C05] @elems: err == nil ==> elemsat(data, 24, a.actions, len(a.actions), "t")
 //@   loop 1:
-//@     invariant a.NXActionHeader != nil && a.ActionHeader != nil && 24 <= n && n <= int(a.Length) && int(a.Length) <= len(data) && allwfl(a.actions)
+//@     invariant a.NXActionHeader != nil && a.ActionHeader != nil && 24 <= n && n <= int(a.Length) && int(a.Length) <= len(data) && allwfl(a.actions) && n == 24 + sum(a.actions)
+//@     invariant[C05] elemsat(data, 24, a.actions, len(a.actions), "t")
 //@     decreases int(a.Length) - n
 
 //@ elemdecoder (*NXActionRegLoad).UnmarshalBinary(a, data) (err) [C07 C12]
@@ -264,8 +280,10 @@ package openflow13
 //@ decoder (*PacketOut).UnmarshalBinary(p, data) (err) [C07 C12]
 //@   requires len(p.Actions) == 0
 //@   ensures err == nil ==> wfl(p)
+//@   ensures[C05] @elems: err == nil ==> elemsat(data, 24, p.Actions, len(p.Actions), "t")
 //@   loop 1:
-//@     invariant 24 <= n && n <= end && end <= len(data) && allwfl(p.Actions)
+//@     invariant 24 <= n && n <= end && end <= len(data) && allwfl(p.Actions) && n == 24 + sum(p.Actions)
+//@     invariant[C05] elemsat(data, 24, p.Actions, len(p.Actions), "t")
 //@     decreases end - n
 
 //@ decoder (*PacketIn).UnmarshalBinary(p, data) (err) [C07 C12]
@@ -301,11 +319,14 @@ package openflow13
 //@   allocbound max(4096, len(data))
 //@   own noalias
 //@   ensures err == nil ==> a != nil && wfl(a) && 1 <= size(a) && size(a) <= len(data) && size(a) <= 65535
+//@   ensures[C04 C05] @kind: err == nil ==> be16(data, 0) == uint16(typecode(a))
+//@   ensures[C04 C05] @minsize: err == nil ==> size(a) >= 4
 
 //@ func DecodeInstr(data) (a) [C07 C12]
 //@   allocbound max(4096, len(data))
 //@   own noalias
 //@   ensures a != nil ==> wfl(a) && 1 <= size(a) && size(a) <= len(data) && size(a) <= 65535
+//@   ensures[C04 C05] @kind: a != nil ==> be16(data, 0) == uint16(typecode(a)) && size(a) >= 4
 
 //@ func Parse(b) (message, err) [C07 C12]
 //@   allowglobals
